@@ -8,7 +8,7 @@ Transcribed functions: `Burn` (burn.go:20-115), `mint` (mint.go:23-235), `MintPa
 `getUniqueSignatures` / `GetStringToSign` (models.go:150-205), `PartitionWZCNMintedNonceAdd`
 (nonce_partitions.go:31-42, as an abstract set: C25 proves the set behaviour of partitions),
 `AddAuthorizer` / `DeleteAuthorizer` / `increaseAuthorizerCount` / `decreaseAuthorizerCount`
-(authorizer.go), `getOrUpdateStakePool` / `validateStakePoolSettings` (stakepool.go:108-170),
+(authorizer.go), `UpdateGlobalConfig` / `GlobalNode.UpdateConfig` / `Validate` (config.go, nodes.go), `getOrUpdateStakePool` / `validateStakePoolSettings` (stakepool.go:108-170),
 `GetUserNode` (nodes_reader.go: an absent user node reads as nonce 0).
 
 Every call runs through the engine model `Ledger.step` (`settleCall`): a contract error is a *chargeable*
@@ -76,6 +76,9 @@ structure Cfg where
   owner   : Id
   minStakePerDelegate : Nat
   maxDelegates : Int
+  /-- the settings this model never changes pass `Validate` (`MinStakeAmount ≥ 1`, `MaxStakeAmount ≥ 1`,
+  `MinAuthorizers ≥ 1`, `HealthCheckPeriod > 0`); NB the shipped sc.yaml has `min_stake: 0`, i.e. `false`. -/
+  otherValid : Bool := true
 deriving Repr
 
 /-- an authorizer's stake pool (the part `getOrUpdateStakePool`, `DeleteAuthorizer` and `mint` look at). -/
@@ -386,6 +389,55 @@ def addAuthStep (feeOn : Bool) (s : ZSt) (c : Call) (a : Option AddIn) : ZSt × 
 def delAuthStep (feeOn : Bool) (s : ZSt) (c : Call) (k : Option Nat) : ZSt × Status :=
   settleCall feeOn s c (match delAuth s c.sender k with | .error _ => none | .ok s' => some (s', []))
 
+/-! ## update-global-config -/
+
+/-- one `key: value` of the request (`GlobalNode.UpdateConfig`, nodes.go:52-146); coin values are what
+`ParseZCN` / `Coin(float)` made of the string. -/
+inductive Upd where
+  | minBurn (n : Nat) | minMint (n : Nat) | maxFee (n : Nat) | percent (f : F64) | owner (i : Id)
+  | minSPD (n : Nat) | maxDel (i : Int)
+  | invalid              -- an unknown key or a value that does not parse
+deriving Repr
+
+inductive CfgErr where
+  | notOwner | decode | update | validate
+deriving DecidableEq, Repr
+
+def applyUpd (c : Cfg) : Upd → Option Cfg
+  | .minBurn n => some { c with minBurn := n }
+  | .minMint n => some { c with minMint := n }
+  | .maxFee n => some { c with maxFee := n }
+  | .percent f => some { c with percent := f }
+  | .owner i => some { c with owner := i }
+  | .minSPD n => some { c with minStakePerDelegate := n }
+  | .maxDel i => some { c with maxDelegates := i }
+  | .invalid => none
+
+def applyUpds (c : Cfg) : List Upd → Option Cfg
+  | [] => some c
+  | u :: us => match applyUpd c u with
+    | none => none
+    | some c' => applyUpds c' us
+
+/-- `GlobalNode.Validate` (nodes.go:178-205), on the fields of this model. -/
+def cfgValid (c : Cfg) : Bool :=
+  c.otherValid && decide (1 ≤ c.minMint) && decide (1 ≤ c.maxFee) && decide (1 ≤ c.minBurn) &&
+  !(F64.lt c.percent F64.zero) && decide (0 < c.maxDelegates)
+
+/-- `UpdateGlobalConfig` (config.go:66-101): the configuration is READ FROM THE STATE (`s.cfg`), changed on a
+copy, validated, and only then written back; a rejected request leaves no trace. -/
+def updCfg (s : ZSt) (sender : Id) (u : Option (List Upd)) : Except CfgErr ZSt :=
+  if s.cfg.owner ≠ sender then .error .notOwner
+  else match u with
+  | none => .error .decode
+  | some us =>
+    match applyUpds s.cfg us with
+    | none => .error .update
+    | some c => if cfgValid c then .ok { s with cfg := c } else .error .validate
+
+def updCfgStep (feeOn : Bool) (s : ZSt) (c : Call) (u : Option (List Upd)) : ZSt × Status :=
+  settleCall feeOn s c (match updCfg s c.sender u with | .error _ => none | .ok s' => some (s', []))
+
 /-! ## histories -/
 
 inductive Op where
@@ -393,12 +445,14 @@ inductive Op where
   | mint (c : Call) (p : Option MintIn) (h : Fr) (pick : Nat → Nat)
   | addAuth (c : Call) (a : Option AddIn)
   | delAuth (c : Call) (k : Option Nat)
+  | updCfg (c : Call) (u : Option (List Upd))
 
 def stepOp (strict feeOn : Bool) (s : ZSt) : Op → ZSt × Status
   | .burn c inp => burnStep feeOn s c inp
   | .mint c p h pick => mintStep strict feeOn s c p h pick
   | .addAuth c a => addAuthStep feeOn s c a
   | .delAuth c k => delAuthStep feeOn s c k
+  | .updCfg c u => updCfgStep feeOn s c u
 
 def runOps (strict feeOn : Bool) (s : ZSt) : List Op → ZSt
   | [] => s
